@@ -17,6 +17,7 @@ pub struct SimHandler {
     pub cancel_at: Cell<u64>,
     pub no_shortcut: Cell<bool>,
     pub no_early: Cell<bool>,
+    pub widen_source: Cell<bool>,
     pub shortcut_fired: Cell<u32>,
     pub early_fired: Cell<u32>,
     pub recompute_fired: Cell<u32>,
@@ -54,6 +55,9 @@ impl Handler for SimHandler {
     fn after_sweep(&self, remaining: usize) {
         self.after_sweep_seen.set(true);
         self.remaining_after_sweep.set(remaining);
+    }
+    fn widen_boxes_at_source(&self) -> bool {
+        self.widen_source.get()
     }
     fn disable_shortcut(&self) -> bool {
         self.boxes_consulted.set(self.boxes_consulted.get() + 1);
